@@ -771,7 +771,14 @@ impl<F: FileSystem + Sync> Server<F> {
                     max_readahead
                 };
 
-                let enabled = capable & want;
+                #[allow(unused_mut)]
+                let mut enabled = capable & want;
+                // The kernel honours `flags2` only when the reply carries FUSE_INIT_EXT,
+                // so echo the marker whenever the client used the extended form.
+                #[cfg(target_os = "linux")]
+                if capable.contains(FsOptions::INIT_EXT) {
+                    enabled |= FsOptions::INIT_EXT;
+                }
                 let enabled_flags = enabled.bits();
                 let mut out = InitOut {
                     major: KERNEL_VERSION,
